@@ -173,6 +173,12 @@ def targetOwner (dir : Dir) (addr : Bytes) : Option Owner :=
   | none => none
   | some (l, d) => if dir.isRole addr then some (.role addr) else if dir.disabled l d then none else some (.user l d)
 
+/-! ## the recipient as written on the wire -/
+/-- `handleRCPT` from the address between the angle brackets: `parseRcptTo` keeps it with its domain in lower case, and
+that spelling is what every check and the filing see -/
+def rcptWire (cfg : Cfg) (dir : Dir) (count : Nat) (raw : Bytes) : Nat := rcptImpl cfg dir count (lowerDomain raw)
+def ownerWire (dir : Dir) (raw : Bytes) : Option Owner := targetOwner dir (lowerDomain raw)
+
 /-! ## DATA-time checks -/
 /-- the size limit as enforced (reader + ValidateMessage): strictly more than max_size octets is refused -/
 def sizeOk (cfg : Cfg) (size : Nat) : Bool := size ≤ cfg.maxSize
